@@ -186,6 +186,31 @@ def _r9(ctx):
                                  text="given column %s not float in %s" % ("/".join(given), name))
     if m == 0:
         raise AnalysisError("no array built from a given curve column receives stores (the slope selection changed shape)")
+    # a unary minus on something that still has the caller's element type: unsigned integers (cycle counts as uint64) wrap around
+    q = 0
+    for name, defs in ci.methods.items():
+        fi = defs[-1]
+        if name.startswith("_"):
+            continue
+        params = {p_ for p_ in fi.params if p_ != "self"}
+        for n_ in walk_function(fi.node):
+            if isinstance(n_, ast.UnaryOp) and isinstance(n_.op, ast.USub) and isinstance(n_.operand, ast.Name):
+                src = n_.operand
+                # only values that come from the method's arguments (through the broadcast)
+                roots = names_in(inline_single_defs(fi.node, src))
+                tdefs = [st for st in walk_function(fi.node) if isinstance(st, ast.Assign) and isinstance(st.targets[0], ast.Tuple) and
+                         any(isinstance(t, ast.Name) and t.id == src.id for t in st.targets[0].elts)]
+                from_arg = bool(roots & params) or any(names_in(st.value) & params for st in tdefs)
+                if not from_arg:
+                    continue
+                q += 1
+                if _float_normalised(prog, fi, src):
+                    ctx.holds(fi, n_, "%s: %s negates a value that was converted to float before" % (name, norm_text(n_)))
+                else:
+                    ctx.violated(fi, n_, "%s: %s negates a value that still has the element type the caller gave it: unsigned "
+                                 "integer cycle numbers wrap around (load(np.array([10**7], dtype=np.uint64)) evaluates the wrong "
+                                 "branch of the curve); the other direction converts its argument to float first" %
+                                 (name, norm_text(n_)), text="negation of caller-typed value in " + name)
 
 
 def _r10(ctx):
@@ -939,6 +964,16 @@ UF = "src/pylife/utils/functions.py"
 def variants():
     out = []
 
+    def cycles_as_given(tree):
+        f = find_func(tree, "WoehlerCurve.basquin_load")
+        for i_, st in enumerate(f.body):
+            if isinstance(st, ast.If) and "isinstance" in ast.unparse(st.test) and any(
+                    isinstance(x, ast.Assign) and isinstance(x.targets[0], ast.Name) and x.targets[0].id == "cycles" for x in ast.walk(st)):
+                del f.body[i_]
+                return True
+        return False
+    out.append(witness("load direction negates the cycle numbers in the caller's element type", "src/pylife/materiallaws/woehlercurve.py", cycles_as_given, "R-C08-9"))
+
     def int_slopes(tree):
         f = find_func(tree, "WoehlerCurve._make_k")
         for st in f.body:
@@ -1122,7 +1157,21 @@ def variants():
         for c in calls_in(f, name="np.full_like"):
             c.keywords = [k for k in c.keywords if k.arg != "dtype"]
         return True
-    out.append(witness("full_like without dtype in _make_k", WP, like_dtype, "R-C08-9"))
+    # (since both directions convert their argument to float before the broadcast, the element type of `src` is float and the
+    # explicit dtype is redundant: behaviour preserving on the repaired tree - it was a defect while basquin_load passed the
+    # caller's cycle numbers through)
+    out.append(twin("full_like without dtype in _make_k (src is float in both directions)", WP, like_dtype))
+
+    def like_dtype_and_raw_cycles(tree):
+        ok = like_dtype(tree)
+        f = find_func(tree, "WoehlerCurve.basquin_load")
+        for i_, st in enumerate(f.body):
+            if isinstance(st, ast.If) and "isinstance" in ast.unparse(st.test) and any(
+                    isinstance(x, ast.Assign) and isinstance(x.targets[0], ast.Name) and x.targets[0].id == "cycles" for x in ast.walk(st)):
+                del f.body[i_]
+                return ok
+        return False
+    out.append(witness("full_like without dtype while the cycle numbers keep the caller's element type", WP, like_dtype_and_raw_cycles, "R-C08-9"))
 
     def no_float_norm(tree):
         f = find_func(tree, "WoehlerCurve.basquin_cycles")
